@@ -1,6 +1,7 @@
 import QuillModel.Props.C06
 import QuillModel.Backend.ConcBound
 import QuillModel.Backend.ConcMono
+import QuillModel.Backend.ConcPrio
 /-!
 # C06 / C09 — progress of `flush_log()` while other threads keep logging
 
@@ -97,6 +98,30 @@ theorem C06_flush_log_returns_concurrent (s0 : BSt) (hA : PA.Fresh s0) (hF : Sta
       omega
   exact ⟨hflag, fun a x hx hpd => ((resume_flag _ a x f hx hpd).1 hflag).2⟩
 
+/-- **`flush_log()` returns — every configuration, no premise** (ordering enabled or disabled, either refresh order, stalled and
+    blocked calls allowed). For an arbitrary schedule `pre ++ suffix`: if the events popped by the end of `pre` plus the productive
+    operations of `suffix` reach the number of records accepted in the whole run, everything has been processed; in particular
+    the flag of every accepted Flush request is raised. (The bound counts the statements logged during `suffix` too; the sharper
+    bounds below do not.) -/
+theorem C06_flush_log_returns_concurrent_total (s0 : BSt) (hA : PA.Fresh s0) (hF : StartF s0) (pre suffix : List Op)
+    (i : Nat) (st : Stmt) (f : Nat) (hst : st ∈ ((runOps s0 (pre ++ suffix)).th i).accepted) (hk : st.kind = .flush f)
+    (hn : accTotal (runOps s0 (pre ++ suffix)) ≤ (runOps s0 pre).popLog.length + productive (runOps s0 pre) suffix) :
+    f ∈ (runOps s0 (pre ++ suffix)).flags := by
+  have hfi := (start_FI hF).runOps (pre ++ suffix)
+  have hai := hA.inv.run (pre ++ suffix)
+  have e : runOps s0 (pre ++ suffix) = runOps (runOps s0 pre) suffix := by simp [runOps, List.foldl_append]
+  have hle := productive_le suffix (runOps s0 pre)
+  rw [← e] at hle
+  have hacc := hst
+  rw [hfi.cons i, List.append_assoc] at hacc
+  rcases List.mem_append.mp hacc with h1 | h1
+  · rcases hfi.popFlag i st h1 f hk with h2 | h2
+    · exact h2
+    · cases h2
+  · exfalso
+    have := pops_lt_total hai hfi (i := i) (st := st) h1
+    omega
+
 /-- **Past the grace period nothing older can arrive.** For every schedule `pre ++ suffix` satisfying the grace premise:
     once the clock (at the end of `pre`) is past `T + grace`, the number of records with timestamp `≤ T` accepted by all
     contexts does not change any more — a thread that keeps enqueueing records with timestamps below a given one does not
@@ -134,6 +159,63 @@ theorem C06_flush_log_returns_concurrent_explicit (s0 : BSt) (hA : PA.Fresh s0) 
   have h1 := C06_nothing_older_arrives s0 hF.start pre suffix st.ts hp hT
   have h2 := accLE_le (hA.inv.run pre) ((start_FI hF).runOps pre) st.ts
   exact C06_flush_log_returns_concurrent s0 hA hF hg hr pre suffix i st f hp hst' hk (by rw [h1]; omega)
+
+/-- **Ordering disabled: nothing overtakes a pending Flush request.** `log_timestamp_ordering_grace_period = 0`, either refresh
+    order, no premise on commit times. Along any continuation that leaves the backend running, as long as the flag of an accepted
+    Flush request `st` is not raised, the pop history has only been extended by events with a timestamp `≤ st.ts`: the backend
+    pops the minimum front, and it pops only when the request's context has a buffered event (right after a pass, or after the
+    batch guard found nothing unread). -/
+theorem C06_flush_not_overtaken_grace0 (s0 : BSt) (hF : StartF s0) (hg0 : s0.cfg.grace = 0) (pre suffix : List Op) (i : Nat)
+    (st : Stmt) (f : Nat) (hst : st ∈ ((runOps s0 pre).th i).accepted) (hk : st.kind = .flush f)
+    (hrun : (runOps s0 (pre ++ suffix)).backendGone = false) :
+    ∃ new, (runOps s0 (pre ++ suffix)).popLog = new ++ (runOps s0 pre).popLog ∧
+      (f ∉ (runOps s0 (pre ++ suffix)).flags → ∀ r ∈ new, r.ts ≤ st.ts) := by
+  have e : runOps s0 (pre ++ suffix) = runOps (runOps s0 pre) suffix := by simp [runOps, List.foldl_append]
+  have hc := (start_GI hF.start).cfg_runOps pre
+  rw [e] at hrun ⊢
+  exact runOps_prio i st f hk suffix (runOps s0 pre) ((start_GI hF.start).runOps pre) ((start_FI hF).runOps pre)
+    (by rw [hc]; exact hg0) hst hrun
+
+/-- **`flush_log()` returns while other threads keep logging — ordering disabled (grace = 0), explicit bound.** The twin of
+    `C06_flush_log_returns_concurrent_explicit` without the ordering invariant: grace period 0, either refresh order. After any
+    schedule `pre` a Flush request `st` (flag `f`, timestamp `T`) has been accepted and the clock has moved past `T`; `suffix` is
+    **arbitrary** and leaves the backend running; every record of the run is committed at its timestamp's clock value or
+    earlier (the grace premise for grace 0: no call stalled between its clock read and its commit). If the productive
+    operations of `suffix` reach `pendingLE … T` — the records with timestamp `≤ T` pending at the end of `pre` — the flag is
+    raised and the caller's `resume` answers "done". -/
+theorem C06_flush_log_returns_concurrent_explicit_grace0 (s0 : BSt) (hA : PA.Fresh s0) (hF : StartF s0)
+    (hg0 : s0.cfg.grace = 0) (pre suffix : List Op) (i : Nat) (st : Stmt) (f : Nat)
+    (hp : GracePremise (runOps s0 (pre ++ suffix)))
+    (hst : st ∈ ((runOps s0 pre).th i).accepted) (hk : st.kind = .flush f)
+    (hT : st.ts < (runOps s0 pre).now)
+    (hrun : (runOps s0 (pre ++ suffix)).backendGone = false)
+    (hn : pendingLE (runOps s0 pre) st.ts ≤ productive (runOps s0 pre) suffix) :
+    f ∈ (runOps s0 (pre ++ suffix)).flags ∧
+    ∀ a x, (runOps s0 (pre ++ suffix)).actor a = some x → x.pend = .flag f →
+      (resume (runOps s0 (pre ++ suffix)) a).2 = "done" := by
+  have e : runOps s0 (pre ++ suffix) = runOps (runOps s0 pre) suffix := by simp [runOps, List.foldl_append]
+  have hfi := (start_FI hF).runOps (pre ++ suffix)
+  have hflag : f ∈ (runOps s0 (pre ++ suffix)).flags := by
+    apply Classical.byContradiction
+    intro hnf
+    obtain ⟨new, hpl, hle⟩ := C06_flush_not_overtaken_grace0 s0 hF hg0 pre suffix i st f hst hk hrun
+    have hst' : st ∈ ((runOps s0 (pre ++ suffix)).th i).accepted := by
+      rw [e]; exact (mono_runOps suffix _).mem_acc hst
+    have hch : st ∈ chain ((runOps s0 (pre ++ suffix)).th i) := by
+      rw [hfi.cons i, List.append_assoc] at hst'
+      rcases List.mem_append.mp hst' with h1 | h1
+      · rcases hfi.popFlag i st h1 f hk with h2 | h2
+        · exact absurd h2 hnf
+        · cases h2
+      · exact h1
+    have hconst := C06_nothing_older_arrives s0 hF.start pre suffix st.ts hp (by rw [hg0]; simpa using hT)
+    have hb := prio_bound (hA.inv.run pre) (hA.inv.run (pre ++ suffix)) ((start_FI hF).runOps pre) hfi i st new hpl (hle hnf)
+      hch hconst
+    have hprod := productive_le suffix (runOps s0 pre)
+    rw [← e, hpl] at hprod
+    simp only [List.length_append] at hprod
+    omega
+  exact ⟨hflag, fun a x hx hpd => ((resume_flag _ a x f hx hpd).1 hflag).2⟩
 
 /-! ### witnesses -/
 
@@ -201,6 +283,24 @@ example :
     1000 + (c05Init true).cfg.grace < s.now ∧
     s'.flags = [0] ∧ (applyOp s' (.front (.resume 1))).2 = "done" ∧
     s'.ths.map (fun t => (t.accepted.length, t.popped.length)) = [(3, 3), (5, 0)] := by
+  decide +kernel
+
+/-- ordering disabled -/
+def c06G0Init : BSt := { c05Init true with cfg := { c05Cfg true with grace := 0 } }
+
+/-- non-vacuity of `C06_flush_log_returns_concurrent_explicit_grace0` / `C06_flush_not_overtaken_grace0`: the busy schedule with
+    grace 0 — three records with timestamp 1000 pending at the end of `c06BusyPre` (clock 1100), thread 2 logging between and
+    inside the polls; three productive polls; the premise holds (every record committed at its timestamp), the backend keeps
+    running, the flag is raised and the caller released by a `resume` inside the schedule; the three records with timestamp 1000
+    are popped first, thread 2's statements (1100) only after the request. -/
+example :
+    let s := runOps c06G0Init c06BusyPre
+    let s' := runOps c06G0Init (c06BusyPre ++ c06Busy)
+    c06G0Init.cfg.grace = 0 ∧ GracePremise s' ∧ s'.backendGone = false ∧ s.now = 1100 ∧
+    (s.th 0).accepted.map (fun st => (st.kind matches .flush 0, st.ts)) = [(false, 1000), (false, 1000), (true, 1000)] ∧
+    pendingLE s 1000 = 3 ∧ productive s c06Busy = 3 ∧ s'.flags = [0] ∧
+    s'.popLog.reverse.map (·.ts) = [1000, 1000, 1000, 1100, 1100, 1100, 1100] ∧
+    (s'.actor 1).map (fun x => x.pend matches .none) = some true := by
   decide +kernel
 
 end Backend
